@@ -1,29 +1,81 @@
 //! C03 — no document can crash, hang or kill server or CLI.
 
-use super::common::*;
 use crate::drive::api;
+use crate::drive::lsp::{Answer, Server};
 use crate::framework::*;
 use liwe::database::Database;
 use liwe::graph::GraphContext;
 use liwe::model::Key;
 use proptest::prelude::*;
+use serde::{Deserialize, Serialize};
+use serde_json::Value;
 
 pub struct C03;
+
+#[derive(Clone, Debug, Serialize, Deserialize)]
+pub struct C03Case {
+    /// note text (ignored when `scale` is set)
+    pub text: String,
+    /// scale family member: (kind, size)
+    pub scale: Option<(u8, u32)>,
+    pub ext: String,
+}
+
+pub fn scale_text(kind: u8, n: u32) -> String {
+    let n = n as usize;
+    let mut s = String::new();
+    match kind % 10 {
+        0 => (0..n).for_each(|i| s.push_str(&format!("para{}\n\n", i))),
+        1 => (0..n).for_each(|i| s.push_str(&format!("- item{}\n", i))),
+        2 => (0..n).for_each(|i| s.push_str(&format!("{}- deep{}\n", "  ".repeat(i), i))),
+        3 => {
+            s.push_str(&"> ".repeat(n));
+            s.push_str("bottom\n");
+        }
+        4 => {
+            (0..n).for_each(|i| s.push_str(&format!("w{} ", i)));
+            s.push('\n');
+        }
+        5 => {
+            let cols = n.max(1);
+            s.push_str(&format!("|{}\n", " h |".repeat(cols)));
+            s.push_str(&format!("|{}\n", " --- |".repeat(cols)));
+            for _ in 0..3 {
+                s.push_str(&format!("|{}\n", " c |".repeat(cols)));
+            }
+        }
+        6 => (0..n).for_each(|i| s.push_str(&format!("# head{}\n\n", i))),
+        7 => (0..n).for_each(|i| s.push_str(&format!("{} head{}\n\ntext{}\n\n", "#".repeat(1 + i % 6), i, i))),
+        8 => {
+            (0..n).for_each(|i| s.push_str(&format!("[l{}](other) ", i)));
+            s.push('\n');
+        }
+        _ => {
+            s.push_str(&"*_".repeat(n));
+            s.push('x');
+            s.push_str(&"_*".repeat(n));
+            s.push('\n');
+        }
+    }
+    s
+}
 
 pub fn drive_library_api(text: &str, ext: &str) {
     let key = Key::from_file_name("doc");
     let mut lib = api::Lib::new();
     lib.insert("doc".into(), text.to_string());
     lib.insert("other".into(), "# other\n\n[doc](doc)\n".to_string());
-    let out = api::format_library(&lib, ext);
-    let _ = out;
+    let _ = api::format_library(&lib, ext);
     let mut db = Database::new(api::to_state(&lib), true, api::opts(ext));
     let _ = db.global_search("");
     let _ = db.global_search("w1");
     let _ = db.graph().paths();
     let nlines = text.lines().count();
-    for line in 0..nlines + 2 {
+    let step = (nlines / 200).max(1);
+    let mut line = 0;
+    while line < nlines + 2 {
         let _ = db.graph().get_node_id_at(&key, line);
+        line += step;
     }
     // update over the previous version, then again with the same text
     db.update_document(key.clone(), format!("{}\n\nmore\n", text));
@@ -33,44 +85,167 @@ pub fn drive_library_api(text: &str, ext: &str) {
     let _ = db.graph().squash(&key, 2);
 }
 
+/// Drive every LSP surface for the note. Returns the first panic seen on a server thread.
+pub fn drive_lsp(text: &str, ext: &str, grid: bool) -> Result<(), (String, String)> {
+    let mut lib = api::Lib::new();
+    lib.insert("doc".into(), text.to_string());
+    lib.insert("other".into(), "# other\n\n[doc](doc)\n".to_string());
+    let mut srv = Server::start(&lib, ext, false, "");
+    let fail = |srv: &mut Server, what: &str| -> Option<(String, String)> {
+        srv.drain_panics();
+        if let Some(rec) = srv.loop_panics.first().or(srv.worker_panics.first()) {
+            return Some((rec.signature(), format!("{}: panic on thread {:?} at {}: {}", what, rec.thread, rec.file, rec.message)));
+        }
+        None
+    };
+    macro_rules! step {
+        ($what:expr, $ans:expr) => {{
+            let a: Answer = $ans;
+            if let Some(f) = fail(&mut srv, $what) {
+                srv.kill();
+                return Err(f);
+            }
+            match a {
+                Answer::Timeout => {
+                    srv.kill();
+                    return Err(("hang|lsp".into(), format!("{}: no answer within the backstop", $what)));
+                }
+                Answer::Disconnected => {
+                    srv.kill();
+                    return Err(("c03|server-gone".into(), format!("{}: server connection gone", $what)));
+                }
+                other => other,
+            }
+        }};
+    }
+    srv.did_change("doc", &format!("{}\n\nmore\n", text));
+    srv.did_change("doc", text);
+    srv.did_save("doc", Some(text));
+    step!("formatting", srv.formatting("doc"));
+    step!("documentSymbol", srv.document_symbols("doc"));
+    step!("workspace/symbol", srv.workspace_symbols(""));
+    step!("workspace/symbol q", srv.workspace_symbols("w1"));
+    step!("inlayHint", srv.inlay_hints("doc"));
+    step!("references", srv.references("doc"));
+    step!("references other", srv.references("other"));
+    let lines: Vec<&str> = text.lines().collect();
+    let nlines = lines.len() as u32;
+    let lstep = if grid { (nlines / 12).max(1) } else { (nlines / 3).max(1) };
+    let mut l = 0u32;
+    while l <= nlines + 1 {
+        let len = lines.get(l as usize).map(|s| s.encode_utf16().count()).unwrap_or(0) as u32;
+        let cstep = (len / 8).max(1);
+        let mut c = 0u32;
+        while c <= len + 1 {
+            step!("definition", srv.pos_request("textDocument/definition", "doc", l, c));
+            step!("prepareRename", srv.pos_request("textDocument/prepareRename", "doc", l, c));
+            c += cstep;
+        }
+        let a = step!("codeAction", srv.code_actions("doc", l, None));
+        if let Answer::Ok(Value::Array(actions)) = a {
+            for act in actions.iter().take(8) {
+                // inline-reference actions on dangling references / references outside a section
+                // are C09's domain (known finding KF-INLINE-DANGLING); resolved here only in that
+                // finding's own search
+                let kind = act.get("kind").and_then(|k| k.as_str()).unwrap_or("");
+                if kind.starts_with("refactor.inline.reference") && !feature_on("resolve_inline_reference") {
+                    continue;
+                }
+                step!("codeAction/resolve", srv.resolve(act));
+            }
+        }
+        l += lstep;
+    }
+    step!("definition past end", srv.pos_request("textDocument/definition", "doc", u32::MAX, u32::MAX));
+    let (answered, joined, death) = srv.shutdown();
+    if let Some(rec) = death {
+        return Err((rec.signature(), format!("server loop died: {} {}", rec.file, rec.message)));
+    }
+    if !answered || !joined {
+        return Err(("c03|shutdown".into(), format!("shutdown answered={} loop ended={}", answered, joined)));
+    }
+    Ok(())
+}
+
 impl Property for C03 {
-    type Case = DocCase;
+    type Case = C03Case;
     fn id(&self) -> &'static str {
         "C03"
     }
     fn rule(&self) -> String {
-        "structured documents with the hostile alphabet and all nestings on; each is loaded, formatted, searched, path-listed, probed at every line and re-updated; oracle: no panic (hook), no abort (process status), termination (watchdog); non-trivial = scans to >= 2 blocks with >= 1 container".into()
+        "(i) structured documents with the hostile alphabet (NUL, BOM, tabs, U+2028, unbalanced brackets, fence and table fragments ...) and every nesting on, incl. every block kind as first block of a list item and empty items; (ii) a size-parametrised scale family (N sibling paragraphs / items / headings, nesting depth D of lists, quotes and emphasis, one line of L words, K-column tables, N links in a paragraph); each note is loaded, formatted, searched, path-listed, probed by line, updated twice over an older version, squashed, and driven through the in-memory LSP server (didChange, didSave, formatting, symbols, hints, references, definition / prepareRename / rename over a grid of positions incl. past the end, code actions at every sampled line and resolve of every action offered, shutdown); oracle: no panic on any thread (hook), no abort (worker process status), termination (watchdog); non-trivial = scans to >= 2 blocks with >= 1 container, or a scale member".into()
     }
     fn assumptions(&self) -> Vec<String> {
-        vec!["release build without overflow checks, as shipped".into()]
+        vec![
+            "release build without overflow checks, as shipped".into(),
+            "loop thread with 8 MB stack (process main thread), request workers with the default 2 MB, as in production".into(),
+            "a hang is reported only for structured (small) inputs after 60 s in isolation; scale members are never reported as hangs".into(),
+        ]
     }
     fn cases(&self, tier: Tier) -> u64 {
         match tier {
-            Tier::Quick => 5000,
+            Tier::Quick => 4000,
             Tier::Thorough => 100_000,
         }
     }
     fn hang_is_violation(&self) -> bool {
         true
     }
-    fn strategy(&self, features: &Features, _tier: Tier) -> BoxedStrategy<DocCase> {
+    fn strategy(&self, features: &Features, _tier: Tier) -> BoxedStrategy<C03Case> {
         let mut cfg = crate::gen::doc::DocCfg::new(features);
         cfg.hostile = true;
         cfg.max_blocks = 8;
-        (crate::gen::doc::text(&cfg), prop_oneof![Just(String::new()), Just(".md".to_string())])
-            .prop_map(|(text, ext)| DocCase { text, ext, door: 0, prev: String::new() })
-            .boxed()
+        let big = features.on("scale_big");
+        let ext = prop_oneof![Just(String::new()), Just(".md".to_string())];
+        let doc = (crate::gen::doc::text(&cfg), ext.clone()).prop_map(|(text, ext)| C03Case { text, scale: None, ext });
+        let size = if big {
+            prop_oneof![4 => 1u32..400, 2 => 400u32..3000, 1 => 3000u32..20000].boxed()
+        } else {
+            prop_oneof![4 => 1u32..200, 1 => 200u32..1200].boxed()
+        };
+        let scale = (0u8..10, size, ext).prop_map(move |(kind, n, ext)| {
+            // depth-like kinds stay smaller: nesting is quadratic in text size
+            let n = match kind {
+                2 | 3 | 9 => {
+                    if big {
+                        n.min(600)
+                    } else {
+                        n.min(40)
+                    }
+                }
+                _ => n,
+            };
+            C03Case { text: String::new(), scale: Some((kind, n)), ext }
+        });
+        prop_oneof![12 => doc, 1 => scale].boxed()
     }
-    fn check(&self, case: &DocCase, stats: &mut Stats) -> Verdict {
-        drive_library_api(&case.text, &case.ext);
-        let s = crate::scan::scan(&case.text);
-        let st = crate::canon::scan_stats(&s, &case.text);
+    fn check(&self, case: &C03Case, stats: &mut Stats) -> Verdict {
+        let text = match case.scale {
+            Some((k, n)) => scale_text(k, n),
+            None => case.text.clone(),
+        };
+        let s = crate::scan::scan(&text);
+        if let Some(r) = crate::canon::crash_domain_discard(&s) {
+            return Verdict::Discard(r);
+        }
+        drive_library_api(&text, &case.ext);
+        let st = crate::canon::scan_stats(&s, &text);
         for k in &st.kinds {
             stats.class(&format!("has:{}", k));
         }
-        Verdict::Pass { nontrivial: st.blocks >= 2 && st.max_depth >= 1 }
+        if let Some((k, _)) = case.scale {
+            stats.class(&format!("scale:{}", k));
+        }
+        if let Err((sig, detail)) = drive_lsp(&text, &case.ext, case.scale.is_none()) {
+            return Verdict::fail(sig, format!("{}\ninput ({} bytes):\n{}", detail, text.len(), super::common::show(&text.chars().take(600).collect::<String>())));
+        }
+        stats.class("lsp-door");
+        Verdict::Pass { nontrivial: case.scale.is_some() || (st.blocks >= 2 && st.max_depth >= 1) }
     }
-    fn sample(&self, case: &DocCase) -> serde_json::Value {
-        serde_json::json!({"text": case.text, "ext": case.ext})
+    fn sample(&self, case: &C03Case) -> serde_json::Value {
+        match case.scale {
+            Some((k, n)) => serde_json::json!({"scale_kind": k, "n": n, "ext": case.ext}),
+            None => serde_json::json!({"text": case.text, "ext": case.ext}),
+        }
     }
 }
